@@ -55,7 +55,7 @@ func witnesses(thorough bool) []Scenario {
 		for i := 1; i <= 8; i++ {
 			ops = append(ops, Op{K: "new", C: 1, O: i}, Op{K: "send", C: 1, O: i, Hi: true, Mode: -1})
 		}
-		ops = append(ops, Op{K: "close", C: 0}, Op{K: "wait", C: 1, O: 2, Timed: false}, Op{K: "closeq"},
+		ops = append(ops, Op{K: "close", C: 0}, Op{K: "closeq"}, Op{K: "wait", C: 1, O: 2, Timed: false},
 			Op{K: "recv", C: 0}, Op{K: "recv", C: 0})
 		out = append(out, Scenario{Kind: "witness-high-woken", Hcap: 1, Lcap: 1, NTopics: 1, NClients: 2, Ops: ops})
 	}
